@@ -242,6 +242,7 @@ pub(crate) fn run(opts: &Opts, report: &mut Report) {
         };
         let long_fork = item.depth > item.last_n;
         let mut skipped_banned = 0u64;
+        let mut ban_reasons: std::collections::BTreeMap<String, u64> = Default::default();
         let stats = {
             let mut judge = |sim: &Sim, outcome: &RunOutcome, devs: &[(usize, Dev)], extra: &[(String, String, usize)]| {
                 let mut bad: Vec<(String, String)> = vec![];
@@ -250,6 +251,13 @@ pub(crate) fn run(opts: &Opts, report: &mut Report) {
                     // the honest peer was banned (C05's subject, e.g. the zero-sample answer):
                     // nothing can be concluded about the fork switch from this run
                     skipped_banned += 1;
+                    for (_, reason) in sim.bans() {
+                        if std::env::var("C04_SHOW_BANS").is_ok() {
+                            eprintln!("BANNED [{}] devs {:?}: {}", name, devs, reason);
+                        }
+                        let code = reason.split(':').next().unwrap_or("").to_owned();
+                        *ban_reasons.entry(code).or_insert(0u64) += 1;
+                    }
                     return;
                 }
                 if long_fork && fully_synced_before {
@@ -331,6 +339,9 @@ pub(crate) fn run(opts: &Opts, report: &mut Report) {
         report.count("transitions", stats.steps);
         report.count("runs", stats.runs);
         report.count("runs_not_judged_honest_peer_banned", skipped_banned);
+        for (k, v) in &ban_reasons {
+            report.count(&format!("not_judged_ban_reason/{}", k), *v);
+        }
         report.count(if long_fork { "long_fork_scenarios" } else { "shallow_fork_scenarios" }, 1);
         if w == 0 {
             let mut v = vec![];
